@@ -42,15 +42,18 @@ META = dict(
                 "mutual_exclusion / inside_is_owner, different_names_independent + other_names_untouched, reentrant_no_block + "
                 "decision_matches_ownership, released_on_every_exit + unlock_frees_name + release_steps_never_block (the model's "
                 "release runs on every outcome BECAUSE it is deferred: that is the fact unlock_deferred_on_acquiring_path plus "
-                "generated exits by normal end, caught and uncaught error, return, break, continue and Go panic; "
+                "the 7 scripted exit kinds (normal end, raise caught / uncaught, return, break, continue, x.panic) — no interpreter-raised runtime error inside a block; "
                 "without_defer_error_leaks_lock is the counterexample), later_entrant_gets_in (safety) + waiter_progress / "
-                "single_name_no_deadlock (progress: a wait cycle needs two names in conflicting program order), "
+                "single_name_no_deadlock / ordered_names_no_deadlock (progress: with finitely many names nested by every "
+                "thread in one global order a waiting system always has a thread inside the protocol with an enabled step or a "
+                "holder executing its body; two_names_opposite_order_deadlock: without the order the real protocol deadlocks), "
                 "locked_has_live_holder, no_lost_update, ids_distinct (+ load-then-add / reset counterexamples, "
                 "id_counter_monotone, first_thread_id_positive)."),
     level_note=("Trusted: Lean kernel + propext/Classical.choice/Quot.sound; sync.Mutex is a correct lock; each MutexesMutex "
                 "section is one atomic, non-blocking event (supported by the facts table_uses_under_table_lock and "
                 "protocol_order_facts, which are syntactic go/ast analyses with `unknown` where aliases escape — none today); a thread IS its tid (two goroutines evaluating with one "
-                "tid re-enter each other's blocks — only tested: seeded sink-closure case) and there is ONE pool per provider "
+                "tid re-enter each other's blocks — fact no_literal_tid + tests: seeded sink-closure case, mode J concurrent "
+                "debugger injections; the InjectValue defect of this kind is repaired in /repo f411ead) and there is ONE pool per provider "
                 "(erp.Processor is an exported field; ids taken before it is replaced may collide with the new pool's — "
                 "mode I variant x observes this, it is not excluded); the trace replay expands an observed enter/exit by the "
                 "model's own state (which branch Go took and when it released is seen only through occupancy, counters and the "
@@ -91,17 +94,6 @@ def read_skeletons():
 # observations the extractor classifies as `unknown` on the tree as it is, each with the reason why this is
 # expected; any OTHER unknown observation makes the run search harder (amplified correspondence)
 EXPECTED_UNKNOWN = {}
-
-
-KF_INJECT = "inject-shares-thread-999"
-
-
-def literal_tids():
-    import json
-    import re
-    src = open(GEN).read() if os.path.exists(GEN) else ""
-    m = re.search(r"def literalTids : List String := \[(.*)\]", src)
-    return [json.loads(x) for x in re.findall(r'"(?:[^"\\\\]|\\\\.)*"', m.group(1))] if m else []
 
 
 def unknown_facts():
@@ -150,10 +142,8 @@ def correspondence(ctx, binp, tier, budget):
         _, tr = split_go(gores.get(i, "MISSING-RESULT"))
         lines[i] = cases[i] + "\t" + tr
     model = checklib.run_driver(ctx, "C12", lines, shards=SPEC["shards"])
-    bad, validated, events, nontrivial, exact, kf = [], 0, 0, set(), 0, []
-    # mode J (concurrent debugger injections) shows the known finding as long as the tree evaluates
-    # injections with a literal thread id; spec = the model's result (mutual exclusion, counters, end state)
-    inject_known = bool(literal_tids())
+    bad, validated, events, nontrivial, exact = [], 0, 0, set(), 0
+
     for i in sorted(cases):
         g, _ = split_go(gores.get(i, "MISSING-RESULT"))
         m, attrs = model.get(i, ("MISSING-MODEL-RESULT", {}))
@@ -163,11 +153,9 @@ def correspondence(ctx, binp, tier, budget):
         if g == m and attrs.get("replay") == "ok":
             validated += 1
             exact += attrs.get("exact") == "1"
-        elif inject_known and cases[i].startswith("J "):
-            kf.append(i)
         else:
             bad.append(i)
-    return dict(kf=kf, cases=cases, gores=gores, model=model, bad=bad, validated=validated, events=events, exact=exact,
+    return dict(cases=cases, gores=gores, model=model, bad=bad, validated=validated, events=events, exact=exact,
                 nontrivial=nontrivial, stats=stats, infos=infos)
 
 
@@ -236,18 +224,6 @@ def run(ctx):
                        "model": r["model"].get(i, ("", {}))[0],
                        "trace_replay": r["model"].get(i, ("", {}))[1].get("replay")} for i in idx]
     report(ctx, r)
-    if r["kf"]:
-        known, _ = checklib.load_known()
-        i = r["kf"][0]
-        g0 = split_go(r["gores"].get(i, ""))[0]
-        if ("C12", KF_INJECT) in known:
-            checklib.known_finding(ctx, f"id={KF_INJECT} {known[('C12', KF_INJECT)]} ({len(r['kf'])} cases, e.g. {r['cases'][i]!r}: "
-                                        f"go={g0[:80]!r} spec={r['model'].get(i, ('', {}))[0][:80]!r})")
-        else:
-            rp = checklib.write_replay(ctx, "input", {"payload": r["cases"][i]}, {"result": r["model"].get(i, ("", {}))[0]},
-                                       {"result": g0}, "./check C12 --replay <this file>", tag="kf")
-            checklib.violation(ctx, rp, f"unlisted finding class {KF_INJECT}")
-    cov["known_finding_cases"] = len(r["kf"])
     sk = read_skeletons()
     changed = [n for n, want in (("skeleton", SKELETON), ("idSkeleton", ID_SKELETON)) if sk.get(n) != want]
     cov["skeleton_changed"] = {n: sk.get(n) for n in changed} if changed else False
